@@ -17,6 +17,7 @@ import (
 	"fmt"
 	"math/big"
 	"os"
+	"runtime"
 	"sort"
 	"strings"
 	"sync"
@@ -75,12 +76,12 @@ type ledgerOp struct {
 	K  string `json:"k,omitempty"`  // handle of a split operation
 	Id int    `json:"id,omitempty"` // model id of the vertex this op creates
 	// mutations for crafted vertices
-	Bad   string `json:"bad,omitempty"`   // "", "sig", "hash"
-	Cut   int    `json:"cut,omitempty"`   // stream corruption position
-	Kind  string `json:"kind,omitempty"`  // stream corruption kind
-	Times int    `json:"times,omitempty"` // repetition
-	At    int    `json:"at,omitempty"`    // truncate: start racing balance queries at this inspection of the context
-	Cancel int   `json:"cancel,omitempty"` // truncate: the context is cancelled at this inspection (shutdown in the middle of a truncation)
+	Bad    string `json:"bad,omitempty"`    // "", "sig", "hash"
+	Cut    int    `json:"cut,omitempty"`    // stream corruption position
+	Kind   string `json:"kind,omitempty"`   // stream corruption kind
+	Times  int    `json:"times,omitempty"`  // repetition
+	At     int    `json:"at,omitempty"`     // truncate: start racing balance queries at this inspection of the context
+	Cancel int    `json:"cancel,omitempty"` // truncate: the context is cancelled at this inspection (shutdown in the middle of a truncation)
 }
 
 type behaviour struct {
@@ -531,6 +532,35 @@ func classify(err error, pv any) string {
 
 const opTimeout = 45 * time.Second
 
+// wedgeTimer fires when an operation that takes milliseconds has not returned for opTimeout (times k). On a machine
+// that is heavily overloaded (load average above twice the cores) it keeps waiting, up to six times as long: a
+// truncation writes a badger backup through a dozen goroutines with 32 MB buffers each and has been seen to take
+// minutes at load 200, which is slowness, not a wedge.
+func wedgeTimer(k int) <-chan time.Time {
+	ch := make(chan time.Time, 1)
+	go func() {
+		base := time.Duration(k) * opTimeout
+		time.Sleep(base)
+		for waited := base; waited < 6*base && overloaded(); waited += 5 * time.Second {
+			time.Sleep(5 * time.Second)
+		}
+		ch <- time.Now()
+	}()
+	return ch
+}
+
+func overloaded() bool {
+	b, err := os.ReadFile("/proc/loadavg")
+	if err != nil {
+		return false
+	}
+	var l1 float64
+	if _, err := fmt.Sscanf(string(b), "%f", &l1); err != nil {
+		return false
+	}
+	return l1 > 2*float64(runtime.NumCPU())
+}
+
 // startSplit starts a propose / deliver in its own goroutine and waits until it is parked at the
 // pre-lock gate or has returned.
 func (w *world) startSplit(p *pendingOp, run func()) bool {
@@ -551,7 +581,7 @@ func (w *world) startSplit(p *pendingOp, run func()) bool {
 	case <-p.done:
 		w.starting = nil
 		return false
-	case <-time.After(opTimeout):
+	case <-wedgeTimer(1):
 		w.emit(event{"a": "Wedged", "n": p.node, "where": "pre"})
 		return false
 	}
@@ -562,7 +592,7 @@ func (w *world) finishSplit(p *pendingOp) bool {
 	select {
 	case <-p.done:
 		return true
-	case <-time.After(opTimeout):
+	case <-wedgeTimer(1):
 		w.emit(event{"a": "Wedged", "n": p.node, "where": "commit"})
 		return false
 	}
@@ -765,7 +795,7 @@ func (w *world) opTruncate(op ledgerOp) {
 	}()
 	select {
 	case <-done:
-	case <-time.After(opTimeout):
+	case <-wedgeTimer(1):
 		w.emit(event{"a": "Wedged", "n": op.N, "where": "truncate"})
 		return
 	}
@@ -925,7 +955,7 @@ func (w *world) opLoad(op ledgerOp) {
 	ctx, cancelStream := context.WithCancel(context.Background())
 	defer cancelStream()
 	var stream []*accountant.Vertex
-	timeout := time.After(opTimeout)
+	timeout := wedgeTimer(1)
 	ch := src.ab.StreamDAG(ctx)
 recv:
 	for {
@@ -981,7 +1011,7 @@ recv:
 	}()
 	select {
 	case <-done:
-	case <-time.After(opTimeout):
+	case <-wedgeTimer(1):
 		w.emit(event{"a": "Wedged", "n": op.M, "where": "load"})
 		return
 	}
@@ -1045,6 +1075,8 @@ func (w *world) run(b *behaviour) {
 				w.opTrust(op, false)
 			case "load":
 				w.opLoad(op)
+			case "netload":
+				w.opNetLoad(op)
 			case "compare":
 				if w.nodes[op.N] != nil && w.nodes[op.M] != nil {
 					w.emit(event{"a": "Compare", "n": op.N, "m": op.M})
